@@ -169,6 +169,9 @@ QB_OPS = {
     "except_of": lambda r: r.except_of(Query.from_(Table("w")).select("q")),
     "minus": lambda r: r.minus(Query.from_(Table("w")).select("q")),
     "replace_table": lambda r: r.replace_table(A(Table("t")), A(Table("tt"))),
+    # tables that occur below the statement's top level (CTE bodies, subqueries, joined items)
+    "replace_table:v": lambda r: r.replace_table(A(Table("v")), A(Table("vv"))),
+    "replace_table:u": lambda r: r.replace_table(A(Table("u")), A(Table("uu", alias="ux"))),
     "as_": lambda r: r.as_("al"),
 }
 PG_OPS = {
